@@ -201,10 +201,16 @@ C03_RenameInbox(pre, ev, post) ==
     THEN (IF ~Has(post, "inbox") \/ ~Live(post, "inbox") \/ post.mb["inbox"].msgs # <<>>
           THEN {"C03.RenameInboxLeavesItEmpty"} ELSE {})
          \cup (IF ~Has(post, ev.mbox) \/ ~Live(post, ev.mbox) THEN {"C03.RenameLostMailbox"}
-               ELSE LET a == pre.mb["inbox"].msgs b == post.mb[ev.mbox].msgs IN
-                    IF Len(a) # Len(b)
+               ELSE LET a == pre.mb["inbox"].msgs b == post.mb[ev.mbox].msgs
+                        known == {a[i].key : i \in DOMAIN a}
+                        (* mail an MH agent has put into the folder and the server has not noticed
+                           yet moves along with the rest (after the messages it knows) *)
+                        waiting == {f[2] : f \in {x \in pre.mb["inbox"].files : x[1] \notin known}}
+                    IN
+                    IF Len(b) < Len(a) \/ Len(b) > Len(a) + Cardinality(waiting)
                        \/ \E i \in DOMAIN a \cap DOMAIN b :
                               a[i].id # b[i].id \/ a[i].d # b[i].d \/ Visible(a[i].fl) # Visible(b[i].fl)
+                       \/ \E j \in DOMAIN b : j > Len(a) /\ b[j].id \notin waiting
                     THEN {"C03.RenameInboxKeepsMessages"} ELSE {})
     ELSE {}
 
